@@ -26,6 +26,7 @@ props! {
     "C06" => c06,
     "C07" => c07,
     "C09" => c09,
+    "C10" => c10,
     "C11" => c11,
     "C12" => c12,
     "C13" => c13,
